@@ -265,9 +265,20 @@ def natDigits (n : Nat) : Bytes := (toString n).toUTF8.toList
 
 def pad2 (n : Nat) : Bytes := if n < 10 then 48 :: natDigits n else natDigits n
 
-/-- `decode_wv_integer`: big-endian into a 32-bit accumulator, printed with `%u`. -/
-def decodeWvInteger (d : Bytes) : Bytes :=
-  natDigits (d.foldl (fun acc b => ((acc <<< 8) % 4294967296) ||| b.toNat) 0)
+/-- `decode_wv_integer`: big-endian accumulation; a significant octet that the next shift would
+    drop is an overflow (error 80); printed with `%u`. -/
+def wvIntLoop : Bytes → Nat → Except Err Nat
+  | [], acc => .ok acc
+  | b :: r, acc => if acc > 0x00ffffff then .error (.code E.wvIntegerOverflow)
+                   else wvIntLoop r ((acc <<< 8) ||| b.toNat)
+
+def decodeWvInteger (d : Bytes) : Except Err Bytes := do
+  let v ← wvIntLoop d 0
+  pure (natDigits v)
+
+def pad4 (n : Nat) : Bytes :=
+  if n < 10 then [48, 48, 48] ++ natDigits n else if n < 100 then [48, 48] ++ natDigits n
+  else if n < 1000 then 48 :: natDigits n else natDigits n
 
 /-- `decode_wv_datetime`. -/
 def decodeWvDatetime (d : Bytes) : Except Err Bytes :=
@@ -281,7 +292,7 @@ def decodeWvDatetime (d : Bytes) : Except Err Bytes :=
     let hour := ((b2 &&& 0x01) <<< 4) ||| ((b3 >>> 4) &&& 0x0F)
     let minute := ((b3 &&& 0x0F) <<< 2) ||| ((b4 >>> 6) &&& 0x03)
     let second := b4 &&& 0x3F
-    let core := natDigits year ++ pad2 month ++ pad2 day ++ [84] ++ pad2 hour ++ pad2 minute ++
+    let core := pad4 year ++ pad2 month ++ pad2 day ++ [84] ++ pad2 hour ++ pad2 minute ++
       (if second != 0 then pad2 second else [])
     if b5 == 0 then .ok (core ++ [90])
     else if b5.toNat < 65 || b5.toNat > 90 || b5 == 74 then .ok core
@@ -316,7 +327,7 @@ def decodeOpaqueContent (langId : Nat) (cur : Option TagRow) (d : Bytes) : Excep
     | none => .ok d
     | some t =>
       match wvDataType t.page t.token with
-      | .integer => .ok (decodeWvInteger d)
+      | .integer => decodeWvInteger d
       | .datetime => decodeWvDatetime d
       | .string => .ok d
   else if langId == 1801 then
